@@ -4,5 +4,5 @@ set -e
 OUT=$1; shift
 T=$(mktemp -d /verif/.work/tgt.XXXXXX)
 trap "rm -rf $T" EXIT
-cd /repo
+cd ${ORX_REPO:-/repo}
 LD_LIBRARY_PATH=$(rustc +nightly --print sysroot)/lib RUSTFLAGS="-Zmir-opt-level=0 -Zinline-mir=no -Awarnings $*" RUSTC_WORKSPACE_WRAPPER=/verif/engine/orxfacts/target/release/orxfacts ORXFACTS_OUT=$OUT CARGO_TARGET_DIR=$T CARGO_NET_OFFLINE=true cargo +nightly check --offline --lib 2>&1 | tail -20
